@@ -16,8 +16,11 @@ def mk_table(case):
         data[k] = np.array(v, dtype=np.int64)
     for k, v in case.get("scols", []):          # further string columns (candidates for t._index = ...)
         data[k] = np.array(v, dtype=object)
+    kw = {}
+    if case.get("seps"):        # the separators as constructor arguments
+        kw = dict(zip(("sep_count", "sep_previous", "sep_next"), case["seps"]))
     return xd.Table(data, col_names=["name"] + [k for k, _ in case["cols"]] + [k for k, _ in case.get("scols", [])],
-                    index="name", cast_strings=not uni)
+                    index="name", cast_strings=not uni, **kw)
 
 
 def mk_row(r):
@@ -48,18 +51,20 @@ def canon_val(v):
     return ["other", repr(v)]
 
 
-SPLIT = re.compile(r"^(.*?)(?:::([+-]?\d+))?(?:(<<|>>)([+-]?\d+))?$")
+SEPS = ["::", "<<", ">>"]      # separators of the table currently addressed (sep_count, sep_previous, sep_next)
 
 
 def split_sel(text):
     """name, count, offset of a textual selector, by the documented grammar
-    (names are free of the separators)."""
-    m = SPLIT.match(text)
+    name<sep_count>count(<sep_previous>|<sep_next>)offset with the separators of the
+    table that receives it (names are free of that table's separators)."""
+    sc, sp, sn = (re.escape(x) for x in SEPS)
+    m = re.match(r"^(.*?)(?:%s([+-]?\d+))?(?:(%s|%s)([+-]?\d+))?$" % (sc, sp, sn), text, re.S)
     name, cnt, d, k = m.groups()
     off = 0
-    if d == "<<":
+    if d == SEPS[1]:
         off = -int(k)
-    elif d == ">>":
+    elif d == SEPS[2]:
         off = int(k)
     return name, (None if cnt is None else int(cnt)), off
 
@@ -135,10 +140,31 @@ def derive(t, op):
 
 
 def run_case(case):
-    t = mk_table(case)
+    # one table, or ("multi") several tables alive together, each with its own separators,
+    # and steps [k, op] addressed to table k in any interleaving
+    global SEPS
+    if "multi" in case:
+        tabs = [mk_table(tc) for tc in case["multi"]["tables"]]
+        seps = [list(tc.get("seps") or ["::", "<<", ">>"]) for tc in case["multi"]["tables"]]
+        steps = case["multi"]["steps"]
+    else:
+        tabs, seps, steps = [mk_table(case)], [list(case.get("seps") or ["::", "<<", ">>"])], [[0, op] for op in case["ops"]]
     res, orc = [], []
-    for op in case["ops"]:
+    for which, op in steps:
+        t = tabs[which]
+        SEPS = seps[which]
         kind = op[0]
+        if kind == "setsep":
+            # t._sep_count / t._sep_previous / t._sep_next = value
+            i = ["count", "previous", "next"].index(op[1])
+            try:
+                setattr(t, "_sep_" + op[1], op[2])
+                seps[which][i] = op[2]
+                res.append(["unit"])
+            except Exception as e:  # noqa
+                res.append(canon_exc(e))
+            orc.append(None)
+            continue
         IDX = t._index          # "name"; "columns" on a transposed table
         if len(op) > 1 and op[1] == "name" and kind in ("getcell", "setcell"):
             op = [op[0], IDX] + list(op[2:])
@@ -146,7 +172,7 @@ def run_case(case):
         exp = None
         try:
             if kind.startswith("d_"):
-                t = derive(t, op)
+                t = tabs[which] = derive(t, op)
                 res.append(["unit"]); orc.append(None)
                 continue
             if kind == "getindex":
